@@ -31,6 +31,14 @@
     [len] (not needed), [reorder] with requests enabled, the tape setter,
     [BDD(...)] and the shutdown.
 
+    Node limit ([max_nodes], [RuntimeError] of a full table).  Part A and B2
+    are safety statements and cover that outcome like any other failure
+    (a reordering that a full table stops in the middle keeps the held nodes,
+    [Sift9.reorder_pub_keeps_held]; in the comparisons [u <= v], [u < v] the
+    temporary [~ self] dies with the frame that the exception unwinds).  The
+    specifications B1
+    conclude success and assume [max_nodes (mgr a) = None].
+
     Only statements closed by [exact]; proofs live in [Proofs/AutorefInv2.v]. *)
 From DD Require Import AutorefInv2 C01proof.
 Local Open Scope string_scope.
@@ -146,13 +154,13 @@ Proof. exact (conj (fun H => H) (fun H => H)). Qed.
 Print Assumptions C08b_dyn_out_unfold.
 
 Theorem C08b_var v a r a' :
-  AInvD a → is_Some (vars (mgr a) !! v) → a_var v a = (r, a') →
+  AInvD a → max_nodes (mgr a) = None → is_Some (vars (mgr a) !! v) → a_var v a = (r, a') →
   dyn_out a (fun x s' => ∀ ρ, denv s' x ρ = ρ v) r a'.
 Proof. exact (a_var_dyn v a r a'). Qed.
 Print Assumptions C08b_var.
 
 Theorem C08b_ite hg hu hv a r a' :
-  AInvD a → a_ite hg hu hv a = (r, a') →
+  AInvD a → max_nodes (mgr a) = None → a_ite hg hu hv a = (r, a') →
   (r = Err EKey ∧ a' = a ∧
    (handles a !! hg = None ∨ handles a !! hu = None ∨ handles a !! hv = None)) ∨
   ∃ g u v, handles a !! hg = Some g ∧ handles a !! hu = Some u ∧ handles a !! hv = Some v ∧
@@ -162,7 +170,8 @@ Proof. exact (a_ite_dyn hg hu hv a r a'). Qed.
 Print Assumptions C08b_ite.
 
 Theorem C08b_quantify hu qvars fa a r a' :
-  AInvD a → Forall (fun k => is_Some (vars (mgr a) !! k)) qvars →
+  AInvD a → max_nodes (mgr a) = None →
+  Forall (fun k => is_Some (vars (mgr a) !! k)) qvars →
   a_quantify hu qvars fa a = (r, a') →
   (r = Err EKey ∧ a' = a ∧ handles a !! hu = None) ∨
   ∃ u, handles a !! hu = Some u ∧
@@ -172,7 +181,8 @@ Proof. exact (a_quantify_dyn hu qvars fa a r a'). Qed.
 Print Assumptions C08b_quantify.
 
 Theorem C08b_cube d a r a' :
-  AInvD a → Forall (fun p => is_Some (vars (mgr a) !! p.1)) d →
+  AInvD a → max_nodes (mgr a) = None →
+  Forall (fun p => is_Some (vars (mgr a) !! p.1)) d →
   a_cube d a = (r, a') →
   dyn_out a (fun x s' => ∀ ρ, denv s' x ρ = true ↔ ∀ v b, (v, b) ∈ d → ρ v = b) r a'.
 Proof. exact (a_cube_dyn d a r a'). Qed.
@@ -191,7 +201,7 @@ Print Assumptions C08b_olook_unfold.
 
 (** [~u], [u & v], [u | v], ...: a connective [f] of the vocabulary *)
 Theorem C08b_function_apply op hu hv a r a' f u v :
-  AInvD a → handles a !! hu = Some u → olook a hv v →
+  AInvD a → max_nodes (mgr a) = None → handles a !! hu = Some u → olook a hv v →
   op ∈ py_vocab → conn_sem op = Some f → arity_ok op v None = true →
   f_apply op hu hv a = (r, a') →
   dyn_out a (fun x s' => ∀ ρ, denv s' x ρ =
@@ -200,7 +210,8 @@ Proof. exact (f_apply_dyn op hu hv a r a' f u v). Qed.
 Print Assumptions C08b_function_apply.
 
 Theorem C08b_apply op hu hv hw a r a' f u v w :
-  AInvD a → handles a !! hu = Some u → olook a hv v → olook a hw w →
+  AInvD a → max_nodes (mgr a) = None →
+  handles a !! hu = Some u → olook a hv v → olook a hw w →
   op ∈ py_vocab → conn_sem op = Some f → arity_ok op v w = true →
   a_apply op hu hv hw a = (r, a') →
   dyn_out a (fun x s' => ∀ ρ, denv s' x ρ =
@@ -242,7 +253,7 @@ Proof. exact eq_refl. Qed.
 Print Assumptions C08b_alet_declared_unfold.
 
 Theorem C08b_let d hu a r a' u d' :
-  AInvD a → handles a !! hu = Some u → alet_empty d = false →
+  AInvD a → max_nodes (mgr a) = None → handles a !! hu = Some u → alet_empty d = false →
   alet_nodes a d d' → alet_declared (mgr a) d →
   a_let d hu a = (r, a') →
   dyn_out a (fun x s' => ∀ ρ, denv s' x ρ = denv (mgr a) u (let_sem (mgr a) d' ρ)) r a'.
